@@ -375,11 +375,9 @@ def replay_equiv(p1, p2, sizes, model, timeout=120, trace_pragmas=False, rtol=1e
             lines.append(f'  print *, {o}')
         lines.append('end program rp')
         drv = '\n'.join(l for l in lines if l != '')
-        flags = ('-fcheck=bounds', '-ffpe-trap=zero,invalid', '-fcray-pointer')
-        if 'POINTER(' in body.upper().replace(' ', ''):
-            # Cray pointers into a scratch array: writing past the allocation is undefined behaviour that only the
-            # address sanitizer makes visible
-            flags += ('-fsanitize=address', '-g')
+        # accesses past an allocation (Cray pointers into a scratch array, an explicit-shape dummy larger than the
+        # actual it is associated with) are undefined behaviour that only the address sanitizer makes visible
+        flags = ('-fcheck=bounds', '-ffpe-trap=zero,invalid', '-fcray-pointer', '-fsanitize=address', '-g')
         ok, so, se = RP.run_fortran([('prog.F90', body + '\n'), ('drv.F90', drv + '\n')], timeout=timeout, flags=flags)
         if not ok:
             outs.append(('FAILED', se[-400:]))
